@@ -55,6 +55,10 @@ struct TL<'a, M> {
     scratch: PathBuf,
     tag: String,
     calls: Vec<Value>,
+    /// set once the callback that decides this call's outcome has run (create, update, or a
+    /// strategy callback answering Keep): `types()` is specified to be asked AFTER it, so a layer
+    /// may compute its types from state that callback changed
+    decided: std::cell::Cell<bool>,
     _m: std::marker::PhantomData<M>,
 }
 
@@ -101,20 +105,24 @@ impl<M: Meta> Layer for TL<'_, M> {
     type Metadata = M;
 
     fn types(&self) -> LayerTypes {
-        let t = &self.spec["types"];
+        let t = if self.decided.get() || self.spec["types_pre"].is_null() { &self.spec["types"] } else { &self.spec["types_pre"] };
         LayerTypes { launch: t["launch"] == true, build: t["build"] == true, cache: t["cache"] == true }
     }
 
     fn create(&mut self, _context: &BuildContext<TestBp>, layer_path: &Path) -> Result<LayerResult<M>, BpError> {
         let empty = std::fs::read_dir(layer_path).map(|mut rd| rd.next().is_none()).unwrap_or(false);
         self.calls.push(json!({"cb": "create", "empty": empty}));
+        self.decided.set(true);
         self.result(&self.spec["create"], layer_path, "c")
     }
 
     fn existing_layer_strategy(&mut self, _context: &BuildContext<TestBp>, layer_data: &LayerData<M>) -> Result<ExistingLayerStrategy, BpError> {
         self.calls.push(json!({"cb": "strategy", "md": layer_data.content_metadata.metadata.dump()}));
         match self.spec["strategy"].as_str().unwrap() {
-            "keep" => Ok(ExistingLayerStrategy::Keep),
+            "keep" => {
+                self.decided.set(true);
+                Ok(ExistingLayerStrategy::Keep)
+            }
             "update" => Ok(ExistingLayerStrategy::Update),
             "recreate" => Ok(ExistingLayerStrategy::Recreate),
             _ => Err(BpError),
@@ -123,6 +131,7 @@ impl<M: Meta> Layer for TL<'_, M> {
 
     fn update(&mut self, _context: &BuildContext<TestBp>, layer_data: &LayerData<M>) -> Result<LayerResult<M>, BpError> {
         self.calls.push(json!({"cb": "update", "md": layer_data.content_metadata.metadata.dump()}));
+        self.decided.set(true);
         self.result(&self.spec["update"], &layer_data.path, "u")
     }
 
@@ -193,7 +202,7 @@ fn handle<M: Meta>(ctx: &BuildContext<TestBp>, name: &LayerName, spec: &Value, s
             r
         }
     }
-    let layer = Logged { inner: TL::<M> { spec, scratch: scratch.to_path_buf(), tag, calls: vec![], _m: std::marker::PhantomData }, out: calls.clone() };
+    let layer = Logged { inner: TL::<M> { spec, scratch: scratch.to_path_buf(), tag, calls: vec![], decided: std::cell::Cell::new(false), _m: std::marker::PhantomData }, out: calls.clone() };
     let res = match ctx.handle_layer(name.clone(), layer) {
         Ok(data) => {
             let t = data.content_metadata.types;
